@@ -157,7 +157,7 @@ def simplify(case):
 
 def run_shard(ctx):
     quick = ctx.tier == "quick"
-    ctx.drive("vroom", gen.run_case(names=["VROOM"], binary_children_only=True, n_range=(16, 300) if quick else (16, 1200),
+    ctx.drive("vroom", gen.run_case(names=["VROOM"], binary_children_only=True, extreme=True, n_range=(16, 300) if quick else (16, 1200),
                                     script_prob=0.25, full_T_prob=0.4, T_min=3,
                                     laws=["noise", "peak", "bump", "ties", "negative", "large", "const", "peakpos"]),
               check_case, ctx.budget(1600, 16000))
